@@ -883,6 +883,9 @@ fn hints(rq: &Req, a: &Answer, ranks: &BTreeMap<i64, usize>) -> String {
     if CALL_HINT.contains(&cmd) { s += if rsps.last().is_some_and(|m| m["success"] == true) { " h:ok" } else { " h:fail" }; }
     // a request that starts the debuggee and is answered with an error: what the process did nevertheless
     if matches!(cmd, "configurationDone" | "restart") && !all_ok { if let Some(o) = &a.obs { s += &format!(" dbg:{o}"); } }
+    // a `continue` whose debugger call failed after the answer is announced as `stopped` (exception): whether the debuggee
+    // process is still there (a signal stop looks the same on the wire) is an observation
+    if cmd == "continue" && has("E.stopped.exception") { if let Some(o) = &a.obs { s += &format!(" dbg:{o}"); } }
     if cmd == "stackTrace" { s += &format!(" pg:{}", a.msgs.iter().filter(|m| m["event"] == "progressStart").count()); }
     if cmd == "setDataBreakpoints" {
         let n = rsps.last().map(|m| m["body"]["breakpoints"].as_array().into_iter().flatten().filter(|b| b["verified"] == true).count()).unwrap_or(0);
